@@ -32,7 +32,7 @@ def _run(spec_dir, module, cfg, seqs, diag, workers, timeout, extra_env=None):
     r = common.tlc(spec_dir, module, cfg, workers=workers, env=env, timeout=timeout, heap="8g")
     shutil.rmtree(d, ignore_errors=True)
     if r["rc"] != 0 or "No error has been found" not in r["out"]:
-        tail = "\n".join(r["out"].splitlines()[-40:])
+        tail = "\n".join(l for l in r["out"].splitlines() if "rror" in l or "xception" in l or "ttempt" in l)[:3000] + "\n" + "\n".join(r["out"].splitlines()[-25:])
         raise common.InfraError("trace validation run failed (%s %s) rc=%s:\n%s" % (module, cfg, r["rc"], tail))
     acc = set(int(m) for m in re.findall(r'<<"ACCEPTED", (\d+)>>', r["out"]))
     at = {}
